@@ -12,7 +12,6 @@ import (
 	"reflect"
 	"sort"
 	"strings"
-	"sync/atomic"
 	"testing"
 	"time"
 
@@ -42,17 +41,9 @@ type replay struct {
 // ---- process-level attribution: the input is written to disk before every call ----
 
 var cur *mon.Cur
-var curStart atomic.Int64 // unix nanos of the start of the current input (0: idle)
-var curCase atomic.Pointer[replay]
 var hdrCache = map[string]string{}
-var tick int
 
 func setCur(rp *replay, raw []byte) {
-	curCase.Store(rp)
-	tick++
-	if tick%16 == 0 || len(raw) > 2000 {
-		curStart.Store(time.Now().UnixNano())
-	}
 	k := rp.Entry + "#" + fmt.Sprint(rp.Code)
 	h, ok := hdrCache[k]
 	if !ok {
@@ -62,8 +53,6 @@ func setCur(rp *replay, raw []byte) {
 	}
 	cur.Set(h, raw)
 }
-
-func clearCur() { curStart.Store(0) }
 
 type fakeConn struct {
 	frames [][]byte
@@ -188,8 +177,8 @@ func errClass(err error) string {
 func run(r *mon.Rec, entry string, code int, b []byte, src string) {
 	r.Eval(1)
 	rp := &replay{Entry: entry, Code: code, Src: src}
+	r.Current(rp)
 	setCur(rp, b)
-	defer clearCur()
 	defer func() {
 		if r.NViolations() > nviol {
 			nviol = r.NViolations()
@@ -309,8 +298,8 @@ func run(r *mon.Rec, entry string, code int, b []byte, src string) {
 // conversations: netboot extractors over all sequences of 0..4 recently decoded messages.
 func conversations(r *mon.Rec) {
 	rp := &replay{Entry: "netboot.conversation"}
+	r.Current(rp)
 	setCur(rp, nil)
-	defer clearCur()
 	n4, n6 := len(recent4), len(recent6)
 	var seq4 func(cur []*dhcpv4.DHCPv4)
 	seq4 = func(cur []*dhcpv4.DHCPv4) {
@@ -614,6 +603,12 @@ func oneCase(r *mon.Rec, i int, isTyped func(int) bool, typedList []int) {
 			v = gen6.Mutate(rng, v, nil, nil)
 		}
 		run(r, "rfc1035label.FromBytes", 0, v, "label")
+		// pointer webs, bare and inside every option that carries names (DHCPv6 24, 39, 56/3; DHCPv4 119)
+		w := reflabel.Web(rng)
+		run(r, "rfc1035label.FromBytes", 0, w, "label-web")
+		for _, b := range wrapNames(w) {
+			run(r, b.entry, 0, b.b, "label-web")
+		}
 	case k < 18: // v4 value types
 		names := make([]string, 0, len(v4types))
 		for n := range v4types {
@@ -652,6 +647,69 @@ func has(l []int, c int) bool {
 	return false
 }
 
+type wrapped struct {
+	entry string
+	b     []byte
+}
+
+// wrapNames puts a label stream into every option that carries domain names.
+func wrapNames(w []byte) []wrapped {
+	msg6 := func(o []byte) []byte { return append([]byte{7, 1, 2, 3}, o...) }
+	v4 := make([]byte, 240)
+	v4[0], v4[1], v4[2] = 2, 1, 6
+	copy(v4[236:], []byte{99, 130, 83, 99})
+	v4 = append(v4, 119, byte(len(w)))
+	v4 = append(append(v4, w...), 255)
+	out := []wrapped{
+		{"dhcpv6.FromBytes", msg6(tlv(24, w))},
+		{"dhcpv6.FromBytes", msg6(tlv(39, append([]byte{1}, w...)))},
+		{"dhcpv6.FromBytes", msg6(tlv(56, tlv(3, w)))},
+	}
+	if len(w) <= 255 {
+		out = append(out, wrapped{"dhcpv4.FromBytes", v4})
+	}
+	return out
+}
+
+// labelEnum: every string over the label alphabet up to length L through the label parser, and up to length L-1
+// inside every name-carrying option (exhaustive small scope for the one recursive structure decoding has to follow).
+func labelEnum(r *mon.Rec, L int) {
+	A := reflabel.Alphabet
+	buf := make([]byte, 0, L)
+	total := 0
+	var rec func(d int)
+	rec = func(d int) {
+		run(r, "rfc1035label.FromBytes", 0, buf, "label-enum")
+		total++
+		if d >= 2 && d < L {
+			for _, w := range wrapNames(buf) {
+				run(r, w.entry, 0, w.b, "label-enum")
+				total++
+			}
+		}
+		if d == L {
+			return
+		}
+		for _, s := range A {
+			buf = append(buf, s)
+			rec(d + 1)
+			buf = buf[:len(buf)-1]
+		}
+	}
+	k := 0
+	for _, s1 := range A {
+		for _, s2 := range A {
+			if r.Mine(k) {
+				buf = append(buf[:0], s1, s2)
+				rec(2)
+			}
+			k++
+		}
+	}
+	r.Count("label_enum_inputs_this_shard", total)
+	r.Set("label_enum", fmt.Sprintf("all strings over %x up to length %d through rfc1035label.FromBytes, up to length %d inside DHCPv6 options 24/39/56 and DHCPv4 option 119", A, L, L-1))
+}
+
 func TestCheck(t *testing.T) {
 	log.SetOutput(io.Discard)
 	r := mon.New("C03")
@@ -667,21 +725,9 @@ func TestCheck(t *testing.T) {
 	if dir, job := os.Getenv("VERIF_RUN"), os.Getenv("VERIF_JOB"); dir != "" && job != "" {
 		cur = mon.NewCur(dir + "/cur-" + job + ".bin")
 	}
-	// termination watchdog: an input running longer than the limit is recorded as a suspect,
+	// termination watchdog: when no input completes for the limit, the current input is recorded as a suspect,
 	// the shard's results are flushed and the driver re-runs that input alone with a larger limit.
-	limit := 15 * time.Second
-	go func() {
-		for {
-			time.Sleep(200 * time.Millisecond)
-			if s := curStart.Load(); s != 0 && time.Since(time.Unix(0, s)) > limit {
-				c := curCase.Load()
-				r.Set("suspect_slow", []any{c})
-				r.Inconclusive("input exceeded the in-process time limit; shard aborted, input re-run alone by the driver")
-				r.Flush()
-				os.Exit(0)
-			}
-		}
-	}()
+	r.Watchdog(15 * time.Second)
 	// the -race/checkptr stage runs a 1/VERIF_SAMPLE sample of the generated cases and no enumeration
 	sample := 1
 	if v := os.Getenv("VERIF_SAMPLE"); v != "" {
@@ -742,6 +788,7 @@ func TestCheck(t *testing.T) {
 			}
 		}
 	}
+	labelEnum(r, r.Pick(6, 7))
 	r.Set("exhaustive_small_scope", "all byte strings of length <= 2 per entry point (<= 3 for four entry points in the thorough tier)")
 	// (1b) committed corpus: replay + mutants through the matching entry points
 	nc := 0
